@@ -85,15 +85,24 @@ def run(ctx: Ctx):
 
     # ---- R12.b reads covered -----------------------------------------------------------------
     ctx.rule("R12.b", "only rhs filters the state unpacking; scheme / monitor_values / missing_values unpack every state; unpack helpers are pure", floor=8)
-    for mname, want_arg in (("rhs", "self.remove_unused"), ("scheme", "False"), ("monitor_values", "False"), ("missing_values", "False")):
+    # what reaches the template's `states` block of each generated function: the comprehension over the sorted states
+    # with its filter.  rhs filters by use when remove_unused is set; the others unpack every state they may read.
+    for mname, filtered in (("rhs", True), ("scheme", False), ("monitor_values", False), ("missing_values", False)):
         f = cgc.methods[mname]
-        calls = [c for c in find_calls(f.node, "_state_assignments")]
-        ctx.require(calls, f"CodeGenerator.{mname} no longer calls _state_assignments")
-        a = call_kw(calls[0], "remove_unused")
-        if a is None and len(calls[0].args) > 1:
-            a = calls[0].args[1]
-        got = norm(a) if a is not None else None
-        ctx.check(got == want_arg, "R12.b", f.key("state-unpacking"), f"_state_assignments(remove_unused={want_arg})", f"CodeGenerator.{mname} unpacks the states with remove_unused={got}; expected {want_arg} (schemes and monitors read every state symbol)", f.where(calls[0]))
+        fv_ = util.value_of(ctx, f)
+        key_ = f.key("state-unpacking")
+        tcalls = [m_ for m_ in _av.find_all(fv_, "mcall") if m_[2] == "method" and _av.show(m_[1]).endswith("template")]
+        st_ = dict(tcalls[0][4]).get("states") if tcalls else None
+        comps_ = [c_ for c_ in _av.find_all(st_, "comp")] if st_ is not None else []
+        if not comps_ or _av.has_unk(st_):
+            ctx.undecided("R12.b", key_, f"CodeGenerator.{mname}: the block that unpacks the states is not understood", f.where())
+            continue
+        conds_ = [c_ for c_ in comps_[0][4] if c_ != _av.C(True)]
+        mentions_ru = any(x[1] in ("self.remove_unused", "remove_unused") for c_ in conds_ for x in _av.find_all(c_, "sym"))
+        if filtered:
+            ctx.check(bool(conds_) and mentions_ru, "R12.b", key_, "rhs unpacks the states it reads (all of them unless remove_unused)", f"CodeGenerator.{mname} unpacks the states under `{[_av.show(c_)[:80] for c_ in conds_] or 'no condition'}`; expected the use filter, applied only when remove_unused is set", f.where())
+        else:
+            ctx.check(not conds_, "R12.b", key_, "every state is unpacked", f"CodeGenerator.{mname} unpacks the states under the condition `{_av.show(conds_[0])[:100] if conds_ else ''}`; schemes and monitors read every state symbol, so every state must be unpacked (remove_unused=False)", f.where())
     from .c04 import _single_comp
 
     def live_of(bvname):
